@@ -19,16 +19,32 @@ CLAIMED = {
             "products and arch_lzcnt modelled; aliasing and input-unchanged clauses observed on the implementation only; bn_sqr_basic "
             "(bn_sqra_low) compared but not modelled separately.",
             "DESIGN.md §5 C01"),
-    "C02": ("Lean 4 proofs (canonical modular add/sub/neg/dbl/hlv; product-scanning Montgomery reduction exact and canonical for every "
-            "T < pR; Montgomery mul/sqr) + correspondence on six 256-bit primes against Z/pZ",
+    "C02": ("Lean 4 proofs (digit level: canonical modular add/sub/neg/dbl/hlv; product-scanning Montgomery reduction exact and canonical for "
+            "every T < pR; Montgomery mul/sqr.  Algorithm level: every exponentiation loop = a^e, Kaliski / binary / Euclid / Fermat / "
+            "simultaneous inversion = the canonical inverse with zero reported, Euler symbol = Legendre symbol, fp_srt returns a root exactly "
+            "when one exists) + correspondence on six 256-bit primes against Z/pZ with the models executed on every line",
             "Proved in Lean for the digit-level model, for every odd modulus with n digits in any base 2^w and u*p = -1 mod B: fp_addm/subm/"
             "negm/dblm/hlvm return the canonical residue (< p); fp_rdcn_low returns c < p with c*R = T mod p for every 2n-digit T < pR, "
             "including the carry-out and final-subtraction branches; fp_mulm/fp_sqrm compose them; equality of canonical elements is equality "
-            "of residues. Inversion, symbol, exponentiation and root algorithms (all variants) are class C: compared with the Z/pZ "
-            "specification (a*c = 1, r*r = a, Euler) on every run, not proved. Tie: ~4200 operation lines per run on NIST/BSI/SECG/SM2/BN/SM9 "
-            "256-bit primes: structured Montgomery digits, all variants by name, aliasing, raw digit-level calls, decoder bounds.",
-            "Trusted: Lean kernel; hand-written model tied by correspondence; the field context (p, u, R^2, qnr) is read from the running library "
-            "and checked against its defining equations; FP_RDC = MONTY only; known finding F16 (fp_exp_slide refuses exponents longer than the "
+            "of residues.  Proved in Lean for the value-level models of Model/FpAlg (same loops, windows, tables, branches, Montgomery-domain "
+            "conversions and error conditions as the C functions; Props/C02B, 16 theorems): fp_exp_basic / fp_exp_dig / fp_exp_monty / "
+            "fp_exp_slide = a^e mod p for every exponent (no primality needed; fp_exp_slide refuses exponents longer than RLC_FP_BITS+1 bits, "
+            "never answers wrongly), negative exponents = inverse of a^|e|, error for a = 0; for every odd prime p < R: fp_inv_monty (Kaliski "
+            "phase 1 terminates within 2m iterations with k <= 2m, reduction of x1 below p, phase 2 in the Montgomery domain), fp_inv_binar, "
+            "fp_inv_exgcd, fp_inv_basic, fp_inv_lower return x in [0,p) with a*x = 1 for a != 0 and report a = 0; fp_inv_sim for every list "
+            "length >= 1; fp_smb_basic / fp_smbm_low = legendreSym (Mathlib); fp_srt (p = 3 mod 4 and constant-time Tonelli-Shanks for every "
+            "2-adicity): flag = 1 iff the operand is a square, and then c*c = a, c < p; fp_is_sqr; fp_crt on its three one-exponentiation branches (p = 2 mod 3, 4 mod 9, 7 mod 9).  Class C (compared with the Z/pZ "
+            "specification on every run, not modelled): fp_inv_divst, fp_inv_jmpds, fp_smb_binar, fp_smb_divst, fp_smb_jmpds (hence the symbol "
+            "inside fp_is_sqr / the Tonelli-Shanks flag is modelled by Euler's criterion), the general branch of fp_crt and fp_is_cub, the *_dig small-constant forms.  "
+            "Tie: ~8800 operation lines per run on NIST/BSI/SECG/SM2/BN/SM9 256-bit primes: structured Montgomery digits, all variants by name, "
+            "aliasing, raw digit-level calls, decoder bounds, structured exponents / inversion operands / list lengths selecting every branch "
+            "of every model (branch histogram in the evidence); six mutations of the modelled C functions in a scratch worktree were all "
+            "reported (findings/C02-ext-notes.md).",
+            "Trusted: Lean kernel; hand-written models tied by correspondence (the algorithm models compose the field operations by value, "
+            "the digit-level theorems are not re-used inside them); the field context (p, u, R^2, qnr, RLC_FP_BITS, RLC_WIDTH, 2-adicity, "
+            "root of unity) is read from the running library and checked against its defining equations = the hypotheses of the theorems; "
+            "primality of the moduli is C18's; FP_RDC = MONTY, FP_EXP = SLIDE, FP_INV = MONTY only; Tonelli-Shanks iterations beyond f = 2 are "
+            "not exercised by any prime of the verified configurations; known finding F16 (fp_exp_slide refuses exponents longer than the "
             "field size).",
             "DESIGN.md §5 C02"),
     "C03": ("Lean 4 proofs (every multiplication loop = k•P over an abstract commutative group, combined with the recoding theorems) + translator "
